@@ -197,14 +197,20 @@ def numeric(rng, tier):
                     fails.append(dict(clause='rpe_left_invariance', signature=nm, a=float(a['RMSE']), b=float(o['RMSE'])))
             z = pp.metric.rpe(stamps, ref, jit.clone(), ref)
             if float(z['Max']) > 1e-6: fails.append(dict(clause='rpe_zero_on_identical', signature='translation'))
-            a1 = pp.metric.ape(stamps, ref, jit.clone(), est, align=True); b1 = pp.metric.ape(stamps, ref, jit.clone(), G @ est, align=True); evals += 2
-            if abs(float(a1['RMSE']) - float(b1['RMSE'])) > 1e-7 * (1 + float(a1['RMSE'])):
-                fails.append(dict(clause='ape_align_invariance', signature='rigid', a=float(a1['RMSE']), b=float(b1['RMSE'])))
+            for et in ('translation', 'rotation', 'pose', 'radian'):
+                a1 = pp.metric.ape(stamps, ref, jit.clone(), est, etype=et, align=True); b1 = pp.metric.ape(stamps, ref, jit.clone(), G @ est, etype=et, align=True); evals += 2
+                if abs(float(a1['RMSE']) - float(b1['RMSE'])) > 1e-6 * (1 + float(a1['RMSE'])):
+                    fails.append(dict(clause='ape_align_invariance', signature=f'rigid/{et}', a=float(a1['RMSE']), b=float(b1['RMSE'])))
             s = 10 ** rng.uniform(-0.5, 0.5)
             est_s = pp.SE3(torch.cat([s * (G @ est).translation(), (G @ est).rotation().tensor()], -1))
-            a2 = pp.metric.ape(stamps, ref, jit.clone(), est, align=True, scale=True); b2 = pp.metric.ape(stamps, ref, jit.clone(), est_s, align=True, scale=True); evals += 2
-            if abs(float(a2['RMSE']) - float(b2['RMSE'])) > 1e-6 * (1 + float(a2['RMSE'])):
-                fails.append(dict(clause='ape_align_scale_invariance', signature='similarity', a=float(a2['RMSE']), b=float(b2['RMSE'])))
+            for et in ('translation', 'rotation'):
+                a2 = pp.metric.ape(stamps, ref, jit.clone(), est, etype=et, align=True, scale=True); b2 = pp.metric.ape(stamps, ref, jit.clone(), est_s, etype=et, align=True, scale=True); evals += 2
+                if abs(float(a2['RMSE']) - float(b2['RMSE'])) > 1e-6 * (1 + float(a2['RMSE'])):
+                    fails.append(dict(clause='ape_align_scale_invariance', signature=f'similarity/{et}', a=float(a2['RMSE']), b=float(b2['RMSE'])))
+            for et in ('translation', 'rotation'):
+                a3 = pp.metric.rpe(stamps, ref, jit.clone(), est, etype=et, align=True); b3 = pp.metric.rpe(stamps, ref, jit.clone(), G @ est, etype=et, align=True); evals += 2
+                if abs(float(a3['RMSE']) - float(b3['RMSE'])) > 1e-6 * (1 + float(a3['RMSE'])):
+                    fails.append(dict(clause='rpe_align_invariance', signature=f'rigid/{et}', a=float(a3['RMSE']), b=float(b3['RMSE'])))
         # bspline: constant twist reproduction and equivariance with rotations
         xi = pp.randn_se3(sigma=0.3, dtype=d); T0 = pp.randn_SE3(dtype=d); m = rng.randrange(4, 9)
         poses = pp.SE3(torch.stack([(T0 @ (pp.se3(i * xi.tensor())).Exp()).tensor() for i in range(m)]))
